@@ -1748,6 +1748,18 @@ static WUR iwrc _sblk_sync_mm(struct iwlctx *lx, struct sblk *sblk, uint8_t *mm)
         rc = dlsnr->onwrite(dlsnr, sblk->addr, mm + sblk->addr, SOFF_END, 0);
         RCRET(rc);
       }
+      // Cursors keep private copies of the node they stand in: refresh them,
+      // slot positions are adjusted by the callers which changed the node.
+      struct iwdb *db = sblk->db;
+      pthread_spin_lock(&db->cursors_slk);
+      for (struct iwkv_cursor *cur = db->cursors; cur; cur = cur->next) {
+        if (cur->cn && (cur->cn != sblk) && (cur->cn->addr == sblk->addr) && !(cur->cn->flags & SBLK_DB)) {
+          memcpy(cur->cn, sblk, sizeof(*cur->cn));
+          cur->cn->kvblk = 0;
+          cur->cn->flags &= SBLK_PERSISTENT_FLAGS;
+        }
+      }
+      pthread_spin_unlock(&db->cursors_slk);
     }
   }
   if (sblk->kvblk && (sblk->kvblk->flags & KVBLK_DURTY)) {
